@@ -15,10 +15,10 @@ def sh(cmd, cwd=None, timeout=1800):
 
 def verify(outdir, name):
     demo = open(os.path.join(outdir, "demo_test.go")).read()
-    first = demo.splitlines()[0]
+    first = " ".join(demo.splitlines()[:3])
     m = re.search(r"([\w./-]+_test\.go)", first)
     place = m.group(1)
-    m = re.search(r"(go test .*)$", first)
+    m = re.search(r"(go test .*?\./[\w./-]+/?)", first)
     cmd = m.group(1).strip()
     wt = "/tmp/seedv-" + name
     sh("git -C /repo worktree remove --force %s" % wt)
